@@ -76,39 +76,6 @@ func (w *World) sinkFamily() map[*types.Func]bool {
 	return fam
 }
 
-// sinkWriteHelpers: family functions other than the sink that write one of their string parameters
-// verbatim to the builder; maps the function to the index of that parameter.
-func (w *World) sinkWriteHelpers() map[*types.Func]int {
-	out := map[*types.Func]int{}
-	sink := w.sinkMethod()
-	if sink == nil {
-		return out
-	}
-	for fn := range w.sinkFamily() {
-		f := w.FuncOf(fn)
-		if f == nil || fn == sink.Obj {
-			continue
-		}
-		info := f.Pkg.TypesInfo
-		sig := fn.Type().(*types.Signature)
-		for _, c := range callsIn(f.Decl.Body, false) {
-			if !isBuilderWrite(info, c) {
-				continue
-			}
-			for i := 0; i < sig.Params().Len(); i++ {
-				p := sig.Params().At(i)
-				if !isBasicKind(p.Type(), types.String) {
-					continue
-				}
-				if writeKind(w, info, c, func(e ast.Expr) bool { return objOf(info, e) == p }) == "verbatim" {
-					out[fn] = i
-				}
-			}
-		}
-	}
-	return out
-}
-
 func sinkWritesRule(r *Run, rule string) {
 	w := r.W
 	sink := w.sinkMethod()
@@ -195,296 +162,6 @@ func isBytesOfString(w *World, info *types.Info, c *ast.CallExpr) bool {
 	}
 	b, ok := sl.Elem().(*types.Basic)
 	return ok && b.Kind() == types.Byte
-}
-
-func isEscaperCall(info *types.Info, c *ast.CallExpr) bool {
-	cal := calleeOf(info, c)
-	return funcIs(cal, htmlTplPath, "HTMLEscaper") || funcIs(cal, htmlTplPath, "HTMLEscapeString") || funcIs(cal, "html", "EscapeString")
-}
-
-// writeKind classifies what a Write call in the sink writes.
-func writeKind(w *World, info *types.Info, c *ast.CallExpr, isVal func(ast.Expr) bool) string {
-	if len(c.Args) != 1 {
-		return "other"
-	}
-	return writeKindOfArg(w, info, c.Args[0], isVal)
-}
-
-// writeKindOfArg classifies the expression that is written.
-func writeKindOfArg(w *World, info *types.Info, arg ast.Expr, isVal func(ast.Expr) bool) string {
-	a := unparen(arg)
-	if bc, ok := a.(*ast.CallExpr); ok && isBytesOfString(w, info, bc) && len(bc.Args) == 1 {
-		a = unparen(bc.Args[0])
-	}
-	call, ok := a.(*ast.CallExpr)
-	if !ok {
-		if isVal(a) {
-			return "verbatim"
-		}
-		return "other"
-	}
-	if isEscaperCall(info, call) {
-		for _, x := range call.Args {
-			if !isVal(x) {
-				return "other"
-			}
-		}
-		return "escape"
-	}
-	if t, ok := isConversion(info, call); ok && isBasicKind(t, types.String) && len(call.Args) == 1 {
-		inner := unparen(call.Args[0])
-		if isVal(inner) {
-			return "verbatim"
-		}
-		if ic, ok := inner.(*ast.CallExpr); ok {
-			if cal := calleeOf(info, ic); cal != nil && cal.Name() == "HTML" {
-				if sel, ok := unparen(ic.Fun).(*ast.SelectorExpr); ok && isVal(sel.X) {
-					return "verbatim-htmler"
-				}
-			}
-		}
-		return "other"
-	}
-	cal := calleeOf(info, call)
-	if funcIs(cal, "fmt", "Sprint") && len(call.Args) == 1 && isVal(call.Args[0]) {
-		return "sprint"
-	}
-	if cal != nil && cal.Name() == "String" {
-		if sel, ok := unparen(call.Fun).(*ast.SelectorExpr); ok && isVal(sel.X) {
-			return "stringer"
-		}
-	}
-	if cal != nil && cal.Name() == "Format" && methodIs(cal, "time", "Time", "Format") {
-		return "timefmt"
-	}
-	return "other"
-}
-
-func sinkDispatchRule(r *Run, rule string) {
-	w := r.W
-	sink := w.sinkMethod()
-	if sink == nil {
-		r.Lost(rule, "output sink")
-		return
-	}
-	info := sink.Pkg.TypesInfo
-	var ts *ast.TypeSwitchStmt
-	for _, st := range sink.Decl.Body.List {
-		if s, ok := st.(*ast.TypeSwitchStmt); ok {
-			ts = s
-		}
-	}
-	if ts == nil || len(sink.Decl.Body.List) != 1 {
-		r.Bad(rule, sink.Name(), "sink is not a single type switch", w.Pos(sink.Decl.Pos()), "the sink must consist of one type switch on the value; anything before or after it acts on every type")
-		if ts == nil {
-			return
-		}
-	}
-	// the switched value
-	var valParam types.Object
-	sig := sink.Obj.Type().(*types.Signature)
-	for i := 0; i < sig.Params().Len(); i++ {
-		if _, ok := sig.Params().At(i).Type().Underlying().(*types.Interface); ok {
-			valParam = sig.Params().At(i)
-		}
-	}
-	writeHelpers := w.sinkWriteHelpers()
-	type armInfo struct {
-		cc     *ast.CaseClause
-		types  []types.Type
-		writes []string
-		recs   int
-		idx    int
-	}
-	var arms []armInfo
-	numeric := func(t types.Type) bool {
-		b, ok := t.(*types.Basic)
-		return ok && b.Info()&(types.IsInteger|types.IsFloat) != 0
-	}
-	for i, c := range ts.Body.List {
-		cc := c.(*ast.CaseClause)
-		a := armInfo{cc: cc, idx: i}
-		for _, e := range cc.List {
-			a.types = append(a.types, info.Types[e].Type)
-		}
-		bound := info.Implicits[cc]
-		isVal := func(e ast.Expr) bool {
-			o := objOf(info, e)
-			return o != nil && (o == bound || o == valParam)
-		}
-		for _, call := range callsIn(cc, true) {
-			if isBuilderWrite(info, call) {
-				a.writes = append(a.writes, writeKind(w, info, call, isVal))
-			}
-			if pi, isHelper := writeHelpers[calleeOf(info, call)]; isHelper && pi < len(call.Args) {
-				a.writes = append(a.writes, writeKindOfArg(w, info, call.Args[pi], isVal))
-			}
-			if calleeOf(info, call) == sink.Obj {
-				a.recs++
-			}
-		}
-		// writes inside a loop count as many
-		inspectBody(cc, true, func(n ast.Node) bool {
-			switch n.(type) {
-			case *ast.ForStmt, *ast.RangeStmt:
-				for _, call := range callsIn(n, true) {
-					if isBuilderWrite(info, call) {
-						a.writes = append(a.writes, "in-loop")
-					}
-				}
-			}
-			return true
-		})
-		arms = append(arms, a)
-	}
-	htmlT := w.lookupType(htmlTplPath, "HTML")
-	var htmler, stringer *types.Interface
-	if nt := w.NamedType("", "HTMLer"); nt != nil {
-		htmler, _ = nt.Underlying().(*types.Interface)
-	}
-	if st := w.lookupType("fmt", "Stringer"); st != nil {
-		stringer, _ = st.Underlying().(*types.Interface)
-	}
-	for _, a := range arms {
-		var names []string
-		for _, t := range a.types {
-			names = append(names, typeStr(t))
-		}
-		con := "case " + strings.Join(names, ", ")
-		if len(a.types) == 0 {
-			con = "default"
-		}
-		hasStrBool, allHTML, allNumeric, isHTMLer, isStringer, isTime := false, len(a.types) > 0, len(a.types) > 0, false, false, false
-		for _, t := range a.types {
-			if isBasicKind(t, types.String) && !isNamed(t) || isBasicKind(t, types.Bool) && !isNamed(t) {
-				hasStrBool = true
-			}
-			if htmlT == nil || !types.Identical(t, htmlT) {
-				allHTML = false
-			}
-			if !numeric(t) {
-				allNumeric = false
-			}
-			if iface, ok := t.Underlying().(*types.Interface); ok {
-				if htmler != nil && types.Identical(iface, htmler) {
-					isHTMLer = true
-				}
-				if stringer != nil && types.Identical(iface, stringer) {
-					isStringer = true
-				}
-				if iface.NumMethods() == 0 {
-					hasStrBool = true // interface{} matches strings too
-				}
-			}
-			if namedIs(t, "time", "Time") {
-				if _, isPtr := t.(*types.Pointer); !isPtr {
-					isTime = true
-				}
-			}
-		}
-		if len(a.types) == 0 {
-			hasStrBool = true // a default arm receives strings of unlisted types? no: plain string has its own arm, but a default arm that writes is unclassified
-		}
-		all := func(kind string) bool {
-			if len(a.writes) == 0 {
-				return false
-			}
-			for _, k := range a.writes {
-				if k != kind {
-					return false
-				}
-			}
-			return true
-		}
-		switch {
-		case len(a.writes) == 0:
-			r.Ok(rule, sink.Name(), con, w.Pos(a.cc.Pos()), fmt.Sprintf("no direct write; %d re-dispatch(es) into the sink", a.recs))
-		case hasStrBool:
-			if all("escape") {
-				r.Ok(rule, sink.Name(), con, w.Pos(a.cc.Pos()), "every write is the HTML escaper applied to the value")
-			} else {
-				r.Bad(rule, sink.Name(), con+" writes "+strings.Join(a.writes, ","), w.Pos(a.cc.Pos()),
-					"an arm that receives Go strings or bools must write nothing but the result of the HTML escaper applied to the value; a raw or conditional write lets < > & ' \" through")
-			}
-		case allHTML:
-			if len(a.writes) == 1 && a.writes[0] == "verbatim" && a.recs == 0 {
-				r.Ok(rule, sink.Name(), con, w.Pos(a.cc.Pos()), "one verbatim write of the value")
-			} else {
-				r.Bad(rule, sink.Name(), con+" writes "+strings.Join(a.writes, ","), w.Pos(a.cc.Pos()), "trusted HTML must be written verbatim exactly once (never escaped, never twice, never dropped)")
-			}
-		case isHTMLer:
-			if len(a.writes) == 1 && a.writes[0] == "verbatim-htmler" {
-				r.Ok(rule, sink.Name(), con, w.Pos(a.cc.Pos()), "one verbatim write of t.HTML()")
-			} else {
-				r.Bad(rule, sink.Name(), con+" writes "+strings.Join(a.writes, ","), w.Pos(a.cc.Pos()), "an HTMLer must be written as its HTML() exactly once")
-			}
-		case allNumeric && all("sprint"), isStringer && all("stringer"), isTime && all("timefmt"):
-			r.Ok(rule, sink.Name(), con, w.Pos(a.cc.Pos()), "frozen safe table: formatted rendering of a non-string type")
-		default:
-			r.Bad(rule, sink.Name(), con+" writes "+strings.Join(a.writes, ","), w.Pos(a.cc.Pos()),
-				"this arm writes an unescaped rendering for a case type outside the frozen safe table (numbers, time.Time, fmt.Stringer, template.HTML, HTMLer)")
-		}
-	}
-	// first-match order
-	firstArm := func(t types.Type) int {
-		for _, a := range arms {
-			for _, ct := range a.types {
-				if types.Identical(ct, t) {
-					return a.idx
-				}
-				if iface, ok := ct.Underlying().(*types.Interface); ok && types.Implements(t, iface) {
-					return a.idx
-				}
-			}
-		}
-		return -1
-	}
-	armOf := func(pred func(armInfo) bool) int {
-		for _, a := range arms {
-			if pred(a) {
-				return a.idx
-			}
-		}
-		return -1
-	}
-	if htmlT != nil {
-		ia := firstArm(htmlT)
-		want := armOf(func(a armInfo) bool {
-			return len(a.types) == 1 && types.Identical(a.types[0], htmlT)
-		})
-		if ia >= 0 && ia == want {
-			r.Ok(rule, sink.Name(), "first match for template.HTML", w.Pos(ts.Pos()), "its own verbatim arm")
-		} else {
-			r.Bad(rule, sink.Name(), "first match for template.HTML", w.Pos(ts.Pos()), "template.HTML is caught by an earlier arm than its verbatim arm (it would be escaped, formatted or dropped)")
-		}
-	}
-	is := firstArm(types.Typ[types.String])
-	if is >= 0 {
-		r.Ok(rule, sink.Name(), "first match for string", w.Pos(ts.Pos()), fmt.Sprintf("arm %d (checked above to escape)", is))
-	} else {
-		r.Bad(rule, sink.Name(), "no arm for string", w.Pos(ts.Pos()), "strings are not printed")
-	}
-	ih := armOf(func(a armInfo) bool {
-		for _, t := range a.types {
-			if iface, ok := t.Underlying().(*types.Interface); ok && htmler != nil && types.Identical(iface, htmler) {
-				return true
-			}
-		}
-		return false
-	})
-	isg := armOf(func(a armInfo) bool {
-		for _, t := range a.types {
-			if iface, ok := t.Underlying().(*types.Interface); ok && stringer != nil && types.Identical(iface, stringer) {
-				return true
-			}
-		}
-		return false
-	})
-	if ih >= 0 && (isg < 0 || ih < isg) {
-		r.Ok(rule, sink.Name(), "HTMLer before fmt.Stringer", w.Pos(ts.Pos()), "a type that is both is treated as HTML")
-	} else {
-		r.Bad(rule, sink.Name(), "HTMLer arm order", w.Pos(ts.Pos()), "the HTMLer arm must precede the fmt.Stringer arm")
-	}
 }
 
 func (w *World) lookupType(pkgPath, name string) types.Type {
@@ -849,100 +526,6 @@ func checkC02(r *Run) {
 	stringScannerRuleSSA(r, "R6")
 }
 
-// textScannerRule: must-pass-through of the tag-start test in the literal-text loop.
-func textScannerRule(r *Run, rule string) {
-	w := r.W
-	m := analyseLexerArms(w)
-	if len(m.problems) > 0 || m.nextTok == nil {
-		r.Lost(rule, "lexer model")
-		return
-	}
-	// the scanner: the string-returning lexer method called by the outer token function
-	var scan *FuncInfo
-	for _, c := range callsIn(m.nextTok.Decl.Body, false) {
-		fi := w.FuncOf(calleeOf(m.info, c))
-		if fi == nil || !isMethodOf(fi, m.typ) {
-			continue
-		}
-		sig := fi.Obj.Type().(*types.Signature)
-		if sig.Results().Len() == 1 && isBasicKind(sig.Results().At(0).Type(), types.String) {
-			scan = fi
-		}
-	}
-	if scan == nil {
-		r.Lost(rule, "literal-text scanner")
-		return
-	}
-	var loop *ast.ForStmt
-	for _, st := range scan.Decl.Body.List {
-		if l, ok := st.(*ast.ForStmt); ok {
-			loop = l
-		}
-	}
-	if loop == nil || len(loop.Body.List) == 0 {
-		r.Lost(rule, "loop of the literal-text scanner")
-		return
-	}
-	last, ok := loop.Body.List[len(loop.Body.List)-1].(*ast.ExprStmt)
-	if !ok || !m.isCall(last.X, m.readChar) {
-		r.Bad(rule, scan.Name(), "loop does not end in readChar()", w.Pos(loop.Pos()), "the literal-text loop is expected to step over one byte at the end of every iteration")
-		return
-	}
-	isTagTest := func(n ast.Node) bool {
-		e, ok := n.(ast.Expr)
-		if !ok {
-			return false
-		}
-		lt, pc := false, false
-		for _, cj := range conjuncts(e) {
-			be, ok := unparen(cj).(*ast.BinaryExpr)
-			if !ok || be.Op != token.EQL {
-				continue
-			}
-			v, isC := constInt(m.info, be.Y)
-			if !isC {
-				continue
-			}
-			if m.isChField(be.X) && v == '<' {
-				lt = true
-			}
-			if m.isCall(be.X, m.peekChar) && v == '%' {
-				pc = true
-			}
-		}
-		return lt && pc && len(conjuncts(e)) == 2
-	}
-	g := cfgOf(m.info, scan.Decl.Body)
-	tr := func(n ast.Node, st int) int {
-		if n == ast.Node(loop.Cond) {
-			return 0
-		}
-		if isTagTest(n) {
-			return 1
-		}
-		return st
-	}
-	bad := false
-	seen := false
-	forwardStates(g, 0, tr, func(n ast.Node, st int) {
-		if n == ast.Node(last) {
-			seen = true
-			if st == 0 {
-				bad = true
-			}
-		}
-	})
-	switch {
-	case !seen:
-		r.Lost(rule, "trailing readChar of the literal-text loop in the CFG")
-	case bad:
-		r.Bad(rule, scan.Name(), "byte stepped over without the tag-start test", w.Pos(last.Pos()),
-			"some path through the loop body (for example the one through the escape handling) reaches the trailing readChar without having tested 'ch == '<' && peekChar() == '%'': a live tag directly behind an escape is swallowed as text")
-	default:
-		r.Ok(rule, scan.Name(), "tag-start test on every path to the trailing readChar", w.Pos(last.Pos()), "must-pass-through on the CFG of the scanner loop")
-	}
-}
-
 func topLevelWriteRule(r *Run, rule string) {
 	w := r.W
 	top := w.topLevelEval()
@@ -981,129 +564,6 @@ func topLevelWriteRule(r *Run, rule string) {
 		return
 	}
 	topLevelOnceRuleSSA(r, rule)
-}
-
-func silentStatementsRule(r *Run, rule string) {
-	w := r.W
-	top := w.topLevelEval()
-	sink := w.sinkMethod()
-	stmtEval := w.evalMethod("Statement")
-	retEval, letEval, exprEval := w.evalMethod("ReturnStatement"), w.evalMethod("LetStatement"), w.evalMethod("Expression")
-	if top == nil || sink == nil || stmtEval == nil || retEval == nil || letEval == nil || exprEval == nil {
-		r.Lost(rule, "top-level / statement evaluators")
-		return
-	}
-	info := top.Pkg.TypesInfo
-	// the variable handed to the sink at top level
-	var resVar types.Object
-	for _, c := range callsIn(top.Decl.Body, true) {
-		if calleeOf(info, c) == sink.Obj && len(c.Args) == 2 {
-			resVar = objOf(info, c.Args[1])
-		}
-	}
-	if resVar == nil {
-		r.Lost(rule, "value variable of the top-level sink call")
-		return
-	}
-	inspectBody(top.Decl.Body, true, func(n ast.Node) bool {
-		as, ok := n.(*ast.AssignStmt)
-		if !ok {
-			return true
-		}
-		for i, l := range as.Lhs {
-			if objOf(info, l) != resVar {
-				continue
-			}
-			var rhs ast.Expr
-			if len(as.Rhs) == 1 {
-				rhs = as.Rhs[0]
-			} else if i < len(as.Rhs) {
-				rhs = as.Rhs[i]
-			}
-			con := "top-level value " + short(w.Fset, rhs)
-			okSrc := false
-			if c, ok := unparen(rhs).(*ast.CallExpr); ok {
-				cal := calleeOf(info, c)
-				if cal == retEval.Obj || cal == letEval.Obj {
-					okSrc = true
-				}
-				if t, isConv := isConversion(info, c); isConv && namedIs(t, htmlTplPath, "HTML") {
-					if bx, fld := fieldOf(info, c.Args[0]); fld != nil && fld.Name() == "Value" {
-						if tv, ok := info.Types[bx]; ok && namedIs(tv.Type, astPath, "HTMLLiteral") {
-							okSrc = true
-						}
-					}
-				}
-			}
-			if okSrc {
-				r.Ok(rule, top.Name(), con, w.Pos(as.Pos()), "a <%= %>/return value, literal text, or let (nil)")
-			} else {
-				r.Bad(rule, top.Name(), con, w.Pos(as.Pos()), "at top level only <%= %> values, literal text and let may reach the sink; the value of a silent <% %> expression must be discarded")
-			}
-		}
-		return true
-	})
-	// inside blocks
-	sinfo := stmtEval.Pkg.TypesInfo
-	var arm *ast.CaseClause
-	inspectBody(stmtEval.Decl.Body, true, func(n ast.Node) bool {
-		if cc, ok := n.(*ast.CaseClause); ok && len(cc.List) == 1 {
-			if tv, ok := sinfo.Types[cc.List[0]]; ok && tv.IsType() && namedIs(tv.Type, astPath, "ExpressionStatement") {
-				arm = cc
-			}
-		}
-		return true
-	})
-	if arm == nil {
-		r.Lost(rule, "ExpressionStatement arm of the in-block statement evaluator")
-		return
-	}
-	bound := sinfo.Implicits[arm]
-	for _, ret := range returnsIn(arm) {
-		if len(ret.Results) != 2 || isNilIdent(sinfo, ret.Results[0]) {
-			continue
-		}
-		con := "in-block expression statement returns " + short(w.Fset, ret.Results[0])
-		ok := false
-		why := ""
-		var child ast.Node = ret
-		for p := w.Parent(ret); p != nil && p != ast.Node(arm); child, p = p, w.Parent(p) {
-			switch x := p.(type) {
-			case *ast.IfStmt:
-				// if _, ok := t.Expression.(*ast.HTMLLiteral); ok { return s, err }
-				if as, isAs := x.Init.(*ast.AssignStmt); isAs && child == ast.Node(x.Body) && len(as.Rhs) == 1 {
-					if ta, isTA := unparen(as.Rhs[0]).(*ast.TypeAssertExpr); isTA && ta.Type != nil && namedIs(sinfo.Types[ta.Type].Type, astPath, "HTMLLiteral") {
-						if bx, fld := fieldOf(sinfo, ta.X); fld != nil && fld.Name() == "Expression" && objOf(sinfo, bx) == bound {
-							ok, why = true, "decided on the NODE being literal text"
-						}
-					}
-				}
-			case *ast.CaseClause:
-				if _, isTS := w.Parent(w.Parent(x)).(*ast.TypeSwitchStmt); isTS {
-					allCtl := len(x.List) > 0
-					for _, e := range x.List {
-						t := sinfo.Types[e].Type
-						tn := typeStr(t)
-						isCtl := strings.HasSuffix(tn, "exitBlockStatment") || strings.HasSuffix(tn, "Object") && declaredIn(t, modPath) || namedIs(t, astPath, "Printable")
-						if !isCtl {
-							allCtl = false
-						}
-					}
-					if allCtl {
-						ok, why = true, "the value is a control-flow object"
-					} else if !ok {
-						why = "arm matches ordinary values by their dynamic type"
-					}
-				}
-			}
-		}
-		if ok {
-			r.Ok(rule, stmtEval.Name(), con, w.Pos(ret.Pos()), why)
-		} else {
-			r.Bad(rule, stmtEval.Name(), con, w.Pos(ret.Pos()),
-				"inside a block a silent <% %> tag prints its value when the value happens to have a printable dynamic type (for example template.HTML from raw(), partial(), a helper): the same tag prints nothing at top level")
-		}
-	}
 }
 
 func literalTextRule(r *Run, rule string) {
